@@ -242,6 +242,11 @@ def gen_case(rng, dens=None):
                 _, vd = layer_slot(doc, files, layer)
                 vd[name] = gen_var_value(rng, name, layer)
                 sites.append(('var', layer, vd, (name,)))
+    # most variables have a base definition, so that most documents resolve (undefined ones are mostly injected)
+    for name in VARS:
+        _, vd = layer_slot(doc, files, 'dg')
+        if name not in vd and rng.random() < 0.8:
+            vd[name] = {'n': 3, 'flag': True}.get(name, 'base.' + name)
     # dictionary-level oddities: empty dictionary / null on top of a dictionary (must not erase)
     if rng.random() < 0.1:
         lay = rng.choice(['ps', 'comp', 'ovp', 'pg'])
